@@ -8,16 +8,18 @@
 #include <string.h>
 #include <unistd.h>
 #include <grp.h>
+#include <errno.h>
 #include "snoopy.h"
 #include "init-deinit.h"
 #include "filterregistry.h"
 extern char verif_cfgpath[4096];
 static char *items[64]; static int nitems; static unsigned long long U; static long nl, nm; static int shown;
+static int ambient_errno;   /* the caller's errno when the filter runs: part of the process state, must not influence the decision */
 static void check(const char *list, int member) {
-    int o = snoopy_filterregistry_callByName("only_uid", list), x = snoopy_filterregistry_callByName("exclude_uid", list), r = snoopy_filterregistry_callByName("only_root", "");
+    errno = ambient_errno; int o = snoopy_filterregistry_callByName("only_uid", list); errno = ambient_errno; int x = snoopy_filterregistry_callByName("exclude_uid", list); errno = ambient_errno; int r = snoopy_filterregistry_callByName("only_root", "");
     nl++;
     int bad = (o != (member ? SNOOPY_FILTER_PASS : SNOOPY_FILTER_DROP)) || (x != (member ? SNOOPY_FILTER_DROP : SNOOPY_FILTER_PASS)) || (o == x) || (r != (U == 0 ? SNOOPY_FILTER_PASS : SNOOPY_FILTER_DROP));
-    if (bad) { nm++; if (shown++ < 50) printf("MISMATCH uid=%llu list=%.200s member=%d only_uid=%d exclude_uid=%d only_root=%d\n", U, list, member, o, x, r); }
+    if (bad) { nm++; if (shown++ < 50) printf("MISMATCH errno_before=%d uid=%llu list=%.200s member=%d only_uid=%d exclude_uid=%d only_root=%d\n", ambient_errno, U, list, member, o, x, r); }
 }
 static void rec(char *buf, size_t len, int depth, int maxlen, int member) {
     if (depth > 0) check(buf, member);
@@ -42,7 +44,9 @@ int main(int argc, char **argv) {
         if ((unsigned long long)getuid() != U) { fprintf(stderr, "uid not assumed\n"); return 3; }
         nl = nm = 0; shown = 0; buf[0] = 0;
         snoopy_init();
-        rec(buf, 0, 0, maxlen, 0);
+        int errs[] = { 0, ERANGE, EINVAL, ENOENT };
+        for (int ei = 0; ei < 4; ei++) { ambient_errno = errs[ei]; buf[0] = 0; rec(buf, 0, 0, ei == 0 ? maxlen : (maxlen > 2 ? 2 : maxlen), 0); }
+        ambient_errno = ERANGE;
         /* long lists: fillers that are not the uid, with the uid at every position, duplicated, or absent */
         int sizes[] = { 10, 50, 200 };
         for (int si = 0; si < 3; si++) { int n = sizes[si];
